@@ -56,6 +56,9 @@ def main():
             print('%-4s %-60s got=%-10s %s' % (r['prop'], r['name'][-60:], r['got'], ','.join(r.get('obligations', []))[:200]), flush=True)
             if r['got'].startswith('broken'): print(r['detail'])
         return
+    summary_into = None
+    if '--summary-into' in args:
+        i = args.index('--summary-into'); summary_into = args[i + 1]; del args[i:i + 2]
     j = 3
     if '-j' in args:
         i = args.index('-j'); j = int(args[i + 1]); del args[i:i + 2]
@@ -92,5 +95,14 @@ def main():
     print('%d mutants, %d as expected, %d mismatches' % (len(res), len(res) - len(bad), len(bad)))
     for r in res: r.pop('detail', None)
     json.dump(res, open(os.path.join(root, 'selftest', 'results.json'), 'w'), indent=1)
+    if summary_into:
+        ev = json.load(open(os.path.join(root, summary_into)))
+        ev['coverage']['must_fail_corpus'] = {
+            'rule': 'property-breaking changes (own overlay mutants under selftest/, independently seeded and confirmed changes under seeded/) must make the check report a violation; harmless refactors must still verify',
+            'cases': len(res), 'as_expected': len(res) - len(bad),
+            'not_as_expected': [r['name'] for r in bad],
+            'detected': [{'name': r['name'], 'obligations': r.get('obligations', [])[:3]} for r in res if r['ok'] and r['expect'] == 'violation'],
+        }
+        json.dump(ev, open(os.path.join(root, summary_into), 'w'), indent=1)
     sys.exit(1 if bad else 0)
 main()
